@@ -1,4 +1,5 @@
 """C11 — FASTA/FASTQ indexing and random access: guards (DESIGN.md §5 C11)."""
+from .. import a10
 from .. import a5
 from .. import cfg as C
 from .. import rules as R
@@ -114,6 +115,13 @@ def run(ctx):
                 ctx.violation("C11.R3", "C11.R3/bypass/" + fi.key, "a record can be emitted without the last-line test", fi.loc())
             else:
                 ctx.ok("C11.R3", fi.key + " :: Record::new only after is_last_sequence_line()", "", fi.loc())
+
+    ctx.rule("C11.R6", "A3 reused buffer: FASTQ read_record resets the whole record (complete clear()) before filling it")
+    R.reused_buffer_rule(ctx, "C11.R6", "noodles_fastq::io::reader::record::read_record", "record::Record::",
+                         ["definition_mut", "sequence_mut", "quality_scores_mut"], owner_param=2)
+
+    ctx.rule("C11.R7", "A10 append-buffer discipline: FASTA/FASTQ readers and indexers reset (or deliberately accumulate into) their buffers")
+    a10.discipline_rule(ctx, "C11.R7", r"^<?noodles_(fasta|fastq)::(io|r#async)", 26)
 
     ctx.rule("C11.R5", "A5d fill_buf scanners of FASTA/FASTQ are peek-1 / scan-in-loop / delegation")
     n = 0
